@@ -736,9 +736,26 @@ pub fn g_long_valid(o: &mut Out, types: &[&str]) {
     }
 }
 
+/// numerals of a hundred thousand digits and more: the needed width an overflow error names passes 64 KiB (and its
+/// arithmetic any 16-bit quantity); through the borrowed-string entry points of the bounded types
+pub fn g_huge_digits(o: &mut Out, types: &[&str]) {
+    for ty in types {
+        for (i, d) in [70_000usize, 147_445, 147_456, 150_000, 300_000].iter().enumerate() {
+            let digit = ["7", "1", "9", "3", "5"][i];
+            let t = digit.repeat(*d);
+            let op = ["parse_str", "parse_str@fromstr", "parse_str@tryfrom"][i % 3];
+            writeln!(o.w, "huge-digits/{}\t{} {} {}", ty, op, ty, tx(&t)).unwrap();
+        }
+        let t = format!("-0.{}e-5", "4".repeat(147_460));
+        writeln!(o.w, "huge-digits/{}\tparse_str {} {}", ty, ty, tx(&t)).unwrap();
+    }
+}
+
 /// junk around / inside numerals delivered fragment by fragment by a `Display` that ignores write errors: no value may come out
 pub fn g_swallow_invalid(o: &mut Out, types: &[&str]) {
-    let xs = ["$12.50", "-x1", " 1", "x", "1x", "x1", "1x2", "1.-5", "nan(1)2", "infx", "+-1", "1e+x5", "12é", "é1", "1 2", "-", "1e", "nan(", "0x10", "--1", "i1", "n7", "s9"];
+    let xs = ["$12.50", "-x1", " 1", "x", "1x", "x1", "1x2", "1.-5", "nan(1)2", "infx", "+-1", "1e+x5", "12é", "é1", "1 2", "-", "1e", "nan(", "0x10", "--1", "i1", "n7", "s9",
+        // two offending bytes: the error must stay the first one however long the source keeps writing
+        "1x2y", "1.5x3y", "infxy", "nan(1x)y", "1e5x+", "12$34%", "-7.z.w", "snanq(r", "9e-3!?", "infinity;:"];
     for s in xs {
         let chars: Vec<String> = s.chars().map(|c| tx(&c.to_string())).collect();
         for ty in types {
@@ -747,6 +764,10 @@ pub fn g_swallow_invalid(o: &mut Out, types: &[&str]) {
             o.put(&format!("swallow-invalid/{}", ty), format!("parse_fmt {} {} {} swallow", ty, cap, tx(s)));
             if chars.len() >= 2 {
                 o.put(&format!("swallow-invalid/{}", ty), format!("parse_fmt {} {} {},{} swallow", ty, cap, chars[0], chars[1..].iter().map(|c| c.as_str()).collect::<Vec<_>>().join("")));
+            }
+            if chars.len() >= 4 {
+                let h = chars.len() / 2;
+                o.put(&format!("swallow-invalid/{}", ty), format!("parse_fmt {} {} {},{} swallow", ty, cap, chars[..h].join(""), chars[h..].join("")));
             }
         }
     }
@@ -1366,9 +1387,11 @@ pub fn g_bytes(o: &mut Out) {
     for ty in ["dyn", "big"] {
         let mut lens: Vec<usize> = (0..=64).collect();
         lens.extend([100, 1000, 1001, 1002, 1003, 4096]);
+        // lengths around 64 KiB, valid and invalid (the figures an error names must not be narrowed)
+        lens.extend([65533, 65535, 65536, 65537, 65540]);
         if ty == "big" {
             // "unbounded": lengths far beyond anything else in the run (1 MiB + 4, 4 MiB + 4)
-            lens.extend([65536, 1048576, 1048580]);
+            lens.extend([1048576, 1048577, 1048580]);
         }
         for len in lens {
             for k in 0..3 {
